@@ -9,6 +9,12 @@ Reads the non-test part of
       - `self.path` is only ever handed to `File::open(`  (read).
   * every crates/ripd/src/**/*.rs : each mention of the literal "events.jsonl" is the argument of
     `EventLog::new(` (the append-only opener) - nothing else may build a path to the truth log.
+  * crates/rip-log/src/lib.rs, `fn append` of `impl EventLog`: the calls made on the BufWriter between
+    taking the writer mutex and the end of the function, in source order, as a `list ashape`
+    (Model/LogBytes.v): ALineNl = write_all(line.as_bytes()) where `line` is `serde_json::to_string(event)`
+    with `line.push('\n')` before the write; ABody = the same without the push; ANl = write_all(b"\n");
+    AStream = serde_json::to_writer(writer, ..); AFlush = flush(); AOther = anything else touching the
+    writer.  Obligation `gen_append_shape_ok`: the shape is [ALineNl; AFlush] - ONE write of frame+LF.
 Emits coq/Gen/LogOpen.v : the facts found as booleans + `gen_log_opened_append_only` (their conjunction)
 and the obligation `gen_log_open_ok`.  When a construct is not found the corresponding fact is `false`
 (never guess), so the obligation fails.
@@ -96,6 +102,72 @@ def extract(repo):
     return facts, notes
 
 
+def append_shape(repo):
+    """the writer calls of EventLog::append in source order (None: function not found)"""
+    p = os.path.join(repo, "crates", "rip-log", "src", "lib.rs")
+    if not os.path.exists(p):
+        return None, ["rip-log/src/lib.rs not found"]
+    src = strip_tests(strip_comments(open(p).read()))
+    m = re.search(r"impl\s+EventLog\s*\{", src)
+    if not m:
+        return None, ["impl EventLog not found"]
+    body = brace_body(src, m.end())
+    fm = re.search(r"pub\s+fn\s+append\s*\(\s*&self\s*,\s*(\w+)\s*:\s*&Event\s*\)[^{]*\{", body)
+    if not fm:
+        return None, ["fn append(&self, _: &Event) not found in impl EventLog"]
+    ev = fm.group(1)
+    fb = brace_body(body, fm.end())
+    # verification hook statements are no writer calls
+    fb = re.sub(r"#\[cfg\(rip_verif\)\]\s*rip_kernel::verif::point\([^)]*\)\s*;", "", fb)
+    wm = re.search(r"let\s+mut\s+(\w+)\s*=\s*self\s*\.\s*writer\s*\.\s*lock\s*\(\s*\)", fb)
+    if not wm:
+        return None, ["`let mut <w> = self.writer.lock()` not found in EventLog::append"]
+    w = wm.group(1)
+    rest = fb[wm.end():]
+    notes = []
+    # the String the frame is printed into: `let mut line = serde_json::to_string(<ev>)`
+    lm = re.search(r"let\s+mut\s+(\w+)\s*=\s*serde_json::to_string\(\s*" + re.escape(ev) + r"\s*\)", rest)
+    line = lm.group(1) if lm else None
+    events = []  # (position, shape)
+    for mm in re.finditer(r"serde_json::to_writer(?:_pretty)?\s*\(", rest):
+        events.append((mm.start(), "AStream"))
+    for mm in re.finditer(r"\b" + re.escape(w) + r"\s*\.\s*(\w+)\s*\(", rest):
+        meth = mm.group(1)
+        # argument text up to the matching parenthesis
+        depth, j = 1, mm.end()
+        while depth > 0 and j < len(rest):
+            depth += {"(": 1, ")": -1}.get(rest[j], 0)
+            j += 1
+        arg = re.sub(r"\s+", "", rest[mm.end():j - 1])
+        if meth == "flush" and arg == "":
+            events.append((mm.start(), "AFlush"))
+        elif meth == "write_all" and line and arg == f"{line}.as_bytes()":
+            pushed = re.search(re.escape(line) + r"\s*\.\s*push\(\s*'\\n'\s*\)\s*;", rest[lm.end():mm.start()]) is not None
+            other_mut = re.findall(re.escape(line) + r"\s*\.\s*(\w+)\s*\(", rest[lm.end():mm.start()])
+            if pushed and other_mut == ["push"]:
+                events.append((mm.start(), "ALineNl"))
+            elif not other_mut:
+                events.append((mm.start(), "ABody"))
+            else:
+                events.append((mm.start(), "AOther"))
+        elif meth == "write_all" and arg in ('b"\\n"', "b\"\\n\"", "&[b'\\n']", "&[10]", "b\"\\x0a\""):
+            events.append((mm.start(), "ANl"))
+        else:
+            events.append((mm.start(), "AOther"))
+            notes.append(f"EventLog::append: unclassified writer call {w}.{meth}({arg[:40]})")
+    # the writer handed to a macro or another function (`write!(writer, ..)`, `f(&mut writer)`) is unclassifiable
+    for mm in re.finditer(r"(?<![\w.])(?:&mut\s*\*?\s*|&\s*)?\*?" + re.escape(w) + r"\b(?!\s*\.)", rest):
+        pre = rest[max(0, mm.start() - 40):mm.start()]
+        if re.search(r"serde_json::to_writer(?:_pretty)?\s*\(\s*$", pre):
+            continue
+        events.append((mm.start(), "AOther"))
+        notes.append("EventLog::append: the writer is passed on: ..." + pre[-30:].strip())
+    events.sort()
+    shape = [s for _, s in events]
+    notes.append("EventLog::append writer calls: " + " ".join(shape))
+    return shape, notes
+
+
 def coq_bool(b):
     return "true" if b else "false"
 
@@ -107,15 +179,23 @@ def main():
     a = ap.parse_args()
     facts, notes = extract(a.repo)
     names = list(facts.keys())
+    shape, snotes = append_shape(a.repo)
+    notes += snotes
     lines = ["(* GENERATED by tools/gen/log_open.py from crates/rip-log/src/lib.rs and crates/ripd/src - do not edit.",
-             "   How the truth log is opened and who names its path (C02, T1). *)",
-             "From RipV Require Import Base.Prelude.", ""]
+             "   How the truth log is opened and who names its path; the writer calls of EventLog::append (C02, T1). *)",
+             "From RipV Require Import Base.Prelude Model.Frames Model.Log Model.LogBytes.", ""]
     for n in names:
         lines.append(f"Definition gen_log_{n} : bool := {coq_bool(facts[n])}.")
     lines.append("")
     lines.append("Definition gen_log_opened_append_only : bool :=\n  " + " && ".join(f"gen_log_{n}" for n in names) + ".")
     lines.append("")
     lines.append("Lemma gen_log_open_ok : gen_log_opened_append_only = true.")
+    lines.append("Proof. vm_compute. reflexivity. Qed.")
+    lines.append("")
+    lines.append("(* the calls EventLog::append makes on its BufWriter, in source order (AOther alone: not found) *)")
+    lines.append("Definition gen_append_shape : list ashape := [" + "; ".join(shape if shape is not None else ["AOther"]) + "].")
+    lines.append("")
+    lines.append("Lemma gen_append_shape_ok : shape_single_write gen_append_shape = true.")
     lines.append("Proof. vm_compute. reflexivity. Qed.")
     os.makedirs(a.out, exist_ok=True)
     open(os.path.join(a.out, "LogOpen.v"), "w").write("\n".join(lines) + "\n")
